@@ -825,6 +825,9 @@ func (x *Exec) callByContract(fi *FuncInfo, fc *FuncContract, call *ast.CallExpr
 		pre.locals[c.Label] = x.named(c.Label, pre.Eval(c.Expr))
 	}
 	tag := "call:" + fi.Obj.Name()
+	if fc.Flags["trusted"] {
+		x.W.Note("ASSUMED CONTRACT (flags trusted: body not verified): " + fi.Key)
+	}
 	for i, c := range fc.Requires {
 		x.assert(env, tag+"/pre:"+clauseName(c, i), "", pre.EvalBool(c.Expr))
 	}
